@@ -105,8 +105,11 @@ enum Entry {
 	/// transport restriction (`http_only()` / `ws_only()`) as the last builder call
 	TowerHttpOnly,
 	TowerWsOnly,
+	/// the default server over loopback TCP, HTTP/2 with prior knowledge (hyper's h2 client): no request line, no
+	/// chunked framing, the body arrives as DATA frames with or without a content-length header
+	ServerTcpH2,
 }
-const ENTRIES: [Entry; 9] = [
+const ENTRIES: [Entry; 10] = [
 	Entry::TowerHttp,
 	Entry::TowerWs,
 	Entry::LowHttpBuilder,
@@ -116,6 +119,7 @@ const ENTRIES: [Entry; 9] = [
 	Entry::ServerTcpWs,
 	Entry::TowerHttpOnly,
 	Entry::TowerWsOnly,
+	Entry::ServerTcpH2,
 ];
 
 fn cfg_restricted(req: u32, resp: u32, ws: bool) -> ServerConfig {
@@ -179,6 +183,7 @@ async fn run_http(entry: Entry, req_limit: u32, resp_limit: u32, msg: &[u8], v: 
 			to_out(resp).await?
 		}
 		Entry::ServerTcpHttp => tcp_http(req_limit, resp_limit, msg, v, log.clone()).await?,
+		Entry::ServerTcpH2 => tcp_h2(req_limit, resp_limit, msg, v, log.clone()).await?,
 		_ => unreachable!(),
 	};
 	let runs = log.lock().unwrap().len();
@@ -248,6 +253,35 @@ async fn tcp_http(req_limit: u32, resp_limit: u32, msg: &[u8], v: HttpVariant, l
 		_ => body,
 	};
 	Ok(srv::HttpOut { status, content_type: None, body: body.into_bytes() })
+}
+
+/// HTTP/2 over loopback against `Server::start`: one connection, one stream
+async fn tcp_h2(req_limit: u32, resp_limit: u32, msg: &[u8], v: HttpVariant, log: srv::InvLog) -> Result<srv::HttpOut, String> {
+	let (addr, handle) = start_tcp_server(req_limit, resp_limit, log)?;
+	let n = msg.len();
+	let three = || vec![msg[..n / 3].to_vec(), msg[n / 3..2 * n / 3].to_vec(), msg[2 * n / 3..].to_vec()];
+	let (body, cl) = match v {
+		HttpVariant::OneFrameCl => (FramesBody::new(vec![msg.to_vec()]), true),
+		HttpVariant::ThreeFramesCl => (FramesBody::new(three()), true),
+		HttpVariant::OneFrameNoCl => (FramesBody::unsized_frames(vec![msg.to_vec()]), false),
+		HttpVariant::ThreeFrames => (FramesBody::unsized_frames(three()), false),
+		// at most 64 DATA frames: hyper's HTTP/2 server tears the connection down when a peer keeps sending hundreds of
+		// frames on a stream the server has already reset (its flood protection), and the answer is then lost to the client
+		HttpVariant::SmallFrames => (FramesBody::unsized_frames(msg.chunks(16.max(n / 64)).map(|c| c.to_vec()).collect()), false),
+		HttpVariant::LyingSmallCl => return Err("not expressible over HTTP/2".into()),
+	};
+	let mut b = http::Request::builder().method("POST").uri(format!("http://{addr}/")).header("content-type", "application/json");
+	if cl {
+		b = b.header("content-length", n.to_string());
+	}
+	let req = b.body(body).map_err(|e| e.to_string())?;
+	let res = async {
+		let mut conn = srv::h2_connect(addr).await?;
+		tokio::time::timeout(std::time::Duration::from_secs(10), conn.request(req)).await.map_err(|_| "hang: no HTTP/2 response within 10 s".to_string())?
+	}
+	.await;
+	let _ = handle.stop();
+	res
 }
 
 async fn tcp_ws(req_limit: u32, resp_limit: u32, msg: &[u8], log: srv::InvLog) -> Result<Outcome, String> {
@@ -377,7 +411,7 @@ async fn run_ws(entry: Entry, req_limit: u32, resp_limit: u32, msg: &[u8]) -> Re
 
 pub fn check(rep: &Reporter) {
 	rep.set_rule(
-		"(max_request, max_response) over 8 pairs incl. unequal ones (thorough: + every request limit 60..140 against response limits 36 and 100000, + 3 large pairs) × message size ∈ {limit−2 … limit+2, 2·limit, 10·limit, limit·3/2} (thorough: also ±3, +7, 3·limit, +127, +128) × 3 padding styles (inner whitespace, ignored string param, ≤127 leading whitespace) × entry point {TowerService over HTTP, TowerService over WebSocket, the same two with the configuration assembled limits-first and http_only()/ws_only() last, http::call_with_service_builder, http::call_with_service, ws::connect, Server::start over loopback TCP with a raw HTTP/1.1 peer (Content-Length or chunked), Server::start over loopback TCP with a WebSocket peer} × HTTP body variants {1 frame+CL, 1 frame no CL, 3 frames, many 16-byte frames, 3 frames+CL, lying small CL}; the message is always a valid `add` call, so 'processed' = handler ran once and the sum came back. Distinct by the whole tuple; every case non-trivial.",
+		"(max_request, max_response) over 8 pairs incl. unequal ones (thorough: + every request limit 60..140 against response limits 36 and 100000, + 3 large pairs) × message size ∈ {limit−2 … limit+2, 2·limit, 10·limit, limit·3/2} (thorough: also ±3, +7, 3·limit, +127, +128) × 3 padding styles (inner whitespace, ignored string param, ≤127 leading whitespace) × entry point {TowerService over HTTP, TowerService over WebSocket, the same two with the configuration assembled limits-first and http_only()/ws_only() last, http::call_with_service_builder, http::call_with_service, ws::connect, Server::start over loopback TCP with a raw HTTP/1.1 peer (Content-Length or chunked), Server::start over loopback TCP with a WebSocket peer, Server::start over loopback TCP with an HTTP/2 (prior knowledge) client: DATA frames with or without content-length} × HTTP body variants {1 frame+CL, 1 frame no CL, 3 frames, many 16-byte frames, 3 frames+CL, lying small CL}; the message is always a valid `add` call, so 'processed' = handler ran once and the sum came back. Distinct by the whole tuple; every case non-trivial.",
 	);
 	rep.assume("WebSocket messages are sent as one unfragmented frame");
 	let thorough = rep.tier.thorough();
@@ -410,8 +444,9 @@ pub fn check(rep: &Reporter) {
 					}
 					match e {
 						Entry::TowerWs | Entry::LowWsConnect | Entry::ServerTcpWs | Entry::TowerWsOnly => cases.push((gi, n, pad, e, HttpVariant::OneFrameCl)),
-						Entry::ServerTcpHttp => {
-							// a lying Content-Length is not expressible over a real HTTP/1.1 connection (hyper frames the body by it)
+						Entry::ServerTcpHttp | Entry::ServerTcpH2 => {
+							// a lying Content-Length is not expressible over a real HTTP/1.1 connection (hyper frames the body by it),
+							// and HTTP/2 treats it as a malformed request
 							for v in HTTP_VARIANTS.iter().filter(|v| **v != HttpVariant::LyingSmallCl) {
 								cases.push((gi, n, pad, e, *v));
 							}
@@ -432,7 +467,7 @@ pub fn check(rep: &Reporter) {
 		let (rq, rs) = grid[gi];
 		let Some(msg) = message(n, pad) else { return };
 		let is_ws = matches!(entry, Entry::TowerWs | Entry::LowWsConnect | Entry::ServerTcpWs | Entry::TowerWsOnly);
-		let is_tcp = matches!(entry, Entry::ServerTcpHttp | Entry::ServerTcpWs);
+		let is_tcp = matches!(entry, Entry::ServerTcpHttp | Entry::ServerTcpWs | Entry::ServerTcpH2);
 		let mut res = rt.block_on(async {
 			if is_ws { run_ws(entry, rq, rs, &msg).await } else { run_http(entry, rq, rs, &msg, variant).await }
 		});
